@@ -26,7 +26,7 @@ CRATES = {
 }
 # crates whose MIR every program-level check loads: the runtimes, the state tree and the driver-facing runtime wrapper
 # (VmDspRuntime in mimium-audiodriver; WasmDspRuntime lives in mimium-lang)
-PROG_CRATES = ('mimium_lang', 'state_tree', 'mimium_audiodriver')
+PROG_CRATES = ('mimium_lang', 'state_tree', 'mimium_audiodriver', 'mimium_scheduler')
 
 
 def prog_mirs(extra=()):
@@ -124,6 +124,9 @@ def compile_program(path, scheduler=False):
 
 
 def replay(spec, timeout=60, debug=False):
+    if 'scheduler' not in spec or spec['scheduler'] is None or spec['scheduler'] is False:
+        # programs of the scheduler group always run with the plugin
+        spec = dict(spec, scheduler=os.path.basename(spec.get('src_path', '')).startswith(('sc_', 'scheduler')))
     return mmdump('replay', '-', input=json.dumps(spec), timeout=timeout, debug=debug)
 
 
@@ -234,6 +237,12 @@ def corpus_files(groups=None, tier='thorough', seed=0):
                     except ValueError:
                         continue
                 out.append(os.path.join(cdir, fn))
+    if groups is not None and 'sc' in groups:
+        # programs using the scheduler plugin (`@`): the repository's scheduler fixtures (sc_* of /verif/corpus are picked up above)
+        fdir = os.path.join(REPO, FIXTURE_DIR)
+        for fn in sorted(os.listdir(fdir)):
+            if fn.endswith('.mmm') and fn.startswith('scheduler') and fn not in ('scheduler_invalid.mmm', 'scheduler_reactive_imported.mmm'):
+                out.append(os.path.join(fdir, fn))
     if groups is not None and 'fx' in groups:
         fdir = os.path.join(REPO, FIXTURE_DIR)
         for fn in sorted(os.listdir(fdir)):
